@@ -264,7 +264,11 @@ inline void build_img(const SImg &d, BuiltImg &b, bool is_dest) {
     if (!b.im) return;
     if (d.has_alpha_map) {
       b.amap = make_image(d.amap);
-      if (b.amap->im) pixman_image_set_alpha_map(b.im, b.amap->im, (int16_t)d.ax, (int16_t)d.ay);
+      if (b.amap->im) {
+        // half of the images first get the same map at another origin: only the last call may count
+        if (d.amap.seed & 1) pixman_image_set_alpha_map(b.im, b.amap->im, (int16_t)(d.ax + 3), (int16_t)(d.ay - 2));
+        pixman_image_set_alpha_map(b.im, b.amap->im, (int16_t)d.ax, (int16_t)d.ay);
+      }
     }
     if (d.accessors && bpp(d.bits.code()) <= 32) {  // pixman_image_set_accessors documents: accessors only work for <= 32 bpp
       AccLog &l = acclog();
